@@ -680,6 +680,13 @@ pub(crate) struct SyncConfig {
 
 impl Default for SyncConfig {
     fn default() -> Self {
+        #[cfg(feature = "verif-hooks")]
+        if let Some((max_set_size, split_factor)) = crate::verif::sync_config() {
+            return SyncConfig {
+                max_set_size,
+                split_factor,
+            };
+        }
         SyncConfig {
             max_set_size: 1,
             split_factor: 2,
